@@ -87,6 +87,7 @@ type Ctx struct {
 	viewResult bool           // the slice being created is a view into a ghost stream array
 	frameTop string           // allocation horizon used by loop frame conditions
 	skipFrameInit bool
+	edgeConds []edgeCond // path conditions of the CFG edges of the root function (dead-edge diagnostic)
 	loopTop  map[int]string   // loop header -> allocation horizon at the loop head
 }
 
@@ -528,9 +529,11 @@ func (c *Ctx) loadAt(s *State, l objLoc, t types.Type, path string) Val {
 			if c.refBound == nil {
 				c.refBound = map[string]bool{}
 			}
-			if key := term + "|" + c.top; !c.refBound[key] {
+			// (allocated so far = the objects below the current horizon plus those allocated since it was last moved)
+			hi := fmt.Sprintf("(+ %s %d)", c.top, c.nalloc)
+			if key := term + "|" + hi; !c.refBound[key] {
 				c.refBound[key] = true
-				c.assume("true", fmt.Sprintf("(and (>= %s 0) (<= %s %s))", term, term, c.top))
+				c.assume("true", fmt.Sprintf("(and (>= %s 0) (<= %s %s))", term, term, hi))
 			}
 		}
 		return Sc{term, srt}
@@ -1128,4 +1131,10 @@ func (c *Ctx) mergeArr(pfx, sort, cond, v, o string) string {
 	}
 	c.notes["merge-pointwise"]++
 	return t
+}
+
+type edgeCond struct {
+	cond     string
+	at       token.Position
+	from, to int
 }
